@@ -839,7 +839,8 @@ func writeEvidence(spec *Spec, tier string, seed int64, P *sym.Program, results 
 	// evidence/ holds results against /repo only; a run against another tree (VERIF_REPO, mutant
 	// experiments) writes next to it
 	evDir := filepath.Join(verifDir, "evidence")
-	if os.Getenv("VERIF_REPO") != "" && repoDir != "/repo" {
+	if (os.Getenv("VERIF_REPO") != "" && repoDir != "/repo") || !strings.HasPrefix(spec.Property, "C") {
+		// (also the engine self-test T00, which is not a property)
 		evDir = filepath.Join(verifDir, "replays", "evidence-other-tree")
 	}
 	os.MkdirAll(evDir, 0o755)
